@@ -1,3 +1,4 @@
+import NucsProofs.Engine.ShavingTerm
 import NucsProofs.Engine.DfsTerm
 import NucsProofs.Engine.DfsShaving
 /-!
@@ -18,6 +19,6 @@ import NucsProofs.Engine.DfsShaving
   * `C02_strategy_independent(_partial)` : any two configurations (variable heuristic, value heuristic,
     consistency algorithm satisfying `ConsOk`) and any two posting orders of the same constraints
     yield permutations of the same list;
-  * shaving: `C02_exactly_once_shaving_partial`, `C02_bc_vs_shaving_partial` (partial correctness;
-    termination of the shaving loop's own fuel is not proved).
+  * shaving: `C02_exactly_once_shaving_partial`, `C02_bc_vs_shaving_partial` (partial correctness) and, with the shaving
+    loop's own termination (`Dfs.consTerm_shaving`), the total forms `C02_enumeration_shaving`, `C02_bc_vs_shaving`.
 -/
